@@ -150,6 +150,7 @@ func c11CLI(a vh.Args, o *vh.Oracle, r *vh.Result, rng *vh.Rand) error {
 	}
 	for k := 0; k < n; k++ {
 		c := c11GenCLICase(rng)
+		r.Running(c)
 		if err := c11CheckCLI(a, o, r, bin, c, k); err != nil {
 			return err
 		}
